@@ -17,7 +17,7 @@ Transcription rules
 * `marshal` = val.go `Marshal`, `unmarshal` = val.go `Unmarshal`, `unmarshalFloat` = val.go
   `unmarshalFloat`, branch by branch.  `constant.MakeFromLiteral` is modelled on the literal grammar
       INT   : [+-]? ( 0 | [1-9][0-9]* )
-      FLOAT : [+-]? [0-9]+   |   [+-]? 0x.[0-9a-f]+ p [+-]? [0-9]{1,7}   (<= 128 hex digits)
+      FLOAT : [+-]? [0-9]+   |   [+-]? 0x.[0-9a-f]+ p [+-]? [0-9]{1,9}   (<= 128 hex digits)
   which contains everything `Marshal` emits.  A literal outside the grammar is `unknown` (go/constant
   returns unknownVal) when it is empty or contains a byte that no Go literal can contain, otherwise the
   model abstains (`Lit.abstain`: prefixed/underscored/exponent forms of the Go literal syntax that
@@ -27,7 +27,7 @@ Transcription rules
   big.Rat, else the rounded float is kept.  makeRat: a fraction whose numerator or denominator has
   4096 bits or more becomes a 512-bit float.  BinaryOp QUO / ADD as in go/constant (match()
   promotes ratVal to floatVal through SetRat = correctly rounded quotient).
-* big.Float exponent overflow (|exp| > 2^31) is not modelled (the grammar limits exponents to 7 digits).
+* big.Float exponent overflow (|exp| > 2^31) is not modelled (the grammar limits exponents to 9 digits, below the int32 range of big.Float).
 -/
 namespace Marshal
 
@@ -257,19 +257,27 @@ def parseHexP (body : Bytes) : Option (Nat × Int) :=
     match rest with
     | 112 :: er =>
       let (eneg, ed) := splitSign er
-      if hd.isEmpty || hd.length > 128 || ed.isEmpty || ed.length > 7 || !(ed.all isDigit) then none
+      if hd.isEmpty || hd.length > 128 || ed.isEmpty || ed.length > 9 || !(ed.all isDigit) then none
       else match parseHex 0 hd, parseDigits 0 ed with
         | some m, some e => some (m, applySign eneg e - 4 * (hd.length : Int))
         | _, _ => none
     | _ => none
   | _ => none
 
-/-- constant.MakeFromLiteral(s, token.FLOAT, 0) = makeFloatFromLiteral -/
-def parseFloatLit (s : Bytes) : Lit Flt :=
+/-- constant.ToFloat(constant.Make(i)) for the big.Int `±n`: exact below 4096 bits, else itof -/
+def decimalIntToFloat (neg : Bool) (n : Nat) : Flt :=
+  if smallInt n then .rat (applySign neg n) 1 else bigOfRat neg n 1
+
+/-- The literal reader of unmarshalFloat.  `exactInt = false`: val.go as found,
+    constant.MakeFromLiteral(s, token.FLOAT, 0) = makeFloatFromLiteral.  `exactInt = true`: val.go
+    with fixes/C32-unmarshalfloat-exact-int.diff (`unmarshalFloatLit`): a signed decimal integer is read
+    with big.Int.SetString(s, 10) and converted by constant.ToFloat, everything else as before.
+    Which of the two the checkout under test contains is extracted into Gen/MarshalCfg.lean. -/
+def parseFloatLit (exactInt : Bool) (s : Bytes) : Lit Flt :=
   let (neg, body) := splitSign s
   if !body.isEmpty && body.all isDigit then
     match parseDigits 0 body with
-    | some n => .val (floatOfShift neg n 0)
+    | some n => .val (if exactInt then decimalIntToFloat neg n else floatOfShift neg n 0)
     | none => .unknown
   else match parseHexP body with
     | some (m, sh) => .val (floatOfShift neg m sh)
@@ -341,10 +349,10 @@ def ofLit : Lit Flt → FRes
   | .unknown => .unknown
   | .abstain => .abstain
 
-def unmarshalFloat (str : Bytes) : FRes :=
+def unmarshalFloat (exactInt : Bool) (str : Bytes) : FRes :=
   match splitFirst cSlash str with
   | some (a, b) =>
-    match parseFloatLit a, parseFloatLit b with
+    match parseFloatLit exactInt a, parseFloatLit exactInt b with
     | .abstain, _ => .abstain
     | _, .abstain => .abstain
     | .unknown, _ => .unknown        -- match(unknown, y) -> unknown
@@ -354,7 +362,7 @@ def unmarshalFloat (str : Bytes) : FRes :=
       | .val f => .val f
       | .unknown => .unknown
       | .panic => .panic
-  | none => ofLit (parseFloatLit str)
+  | none => ofLit (parseFloatLit exactInt str)
 
 /-! ## Unmarshal (val.go:94) -/
 inductive Res where
@@ -362,14 +370,14 @@ inductive Res where
   | unknown (k : Kind)     -- constant.Value of kind Unknown
   | panic
   | abstain
-  deriving Repr
+  deriving DecidableEq, Repr
 
 def ofIntLit (k : Kind) (mk : Int → Val) : Lit Int → Res
   | .val i => .ok (mk i)
   | .unknown => .unknown k
   | .abstain => .abstain
 
-def unmarshal (marshalled : Bytes) : Res :=
+def unmarshal (exactInt : Bool) (marshalled : Bytes) : Res :=
   let (skind, str) := match splitFirst cColon marshalled with
     | some (k, r) => (k, r)
     | none => (marshalled, [])
@@ -377,7 +385,7 @@ def unmarshal (marshalled : Bytes) : Res :=
   else if skind = kInt then ofIntLit .int .int (parseIntLit str)
   else if skind = kRune then ofIntLit .rune .rune (parseIntLit str)
   else if skind = kFloat then
-    match unmarshalFloat str with
+    match unmarshalFloat exactInt str with
     | .val f => .ok (.float f)
     | .unknown => .unknown .float
     | .panic => .panic
@@ -385,7 +393,7 @@ def unmarshal (marshalled : Bytes) : Res :=
   else if skind = kComplex then
     match splitFirst cColon str with
     | some (a, b) =>
-      match unmarshalFloat a, unmarshalFloat b with
+      match unmarshalFloat exactInt a, unmarshalFloat exactInt b with
       | .abstain, _ => .abstain
       | _, .abstain => .abstain
       | .panic, _ => .panic
@@ -394,7 +402,7 @@ def unmarshal (marshalled : Bytes) : Res :=
       | _, .unknown => .unknown .complex
       | .val re, .val im => .ok (.complex (addZero re) (addZero im))
     | none =>
-      match unmarshalFloat str with
+      match unmarshalFloat exactInt str with
       | .val f => .ok (.complex f (.rat 0 1))       -- ToComplex(x) = complexVal{x, int64Val(0)}
       | .unknown => .unknown .complex
       | .panic => .panic
